@@ -456,3 +456,53 @@ func verifHarness_C13_control_frame_coalesced_with_next() {
 	verifAssertD(len(ep.msgs) == 1 && string(ep.msgs[0].data) == want, "following-message-delivered", "coalesced")
 	verifAssert(false, "witness")
 }
+
+// data-frame mode (only OnDataFrame is set, messages are not assembled): the
+// per-message state must still end with the FIN frame — the next message has
+// its own type, and a continuation frame after a finished message has nothing
+// to continue.
+func verifHarness_C13_data_frame_mode_message_boundaries() {
+	ep := verifNewEndpoint(false, false, 0, nil)
+	ep.c.messageHandler = nil
+	type fr struct {
+		typ  MessageType
+		fin  bool
+		data []byte
+	}
+	var frames []fr
+	ep.c.OnDataFrame(func(c *Conn, mt MessageType, fin bool, data []byte) {
+		frames = append(frames, fr{mt, fin, append([]byte(nil), data...)})
+	})
+	first := byte(BinaryMessage)
+	if verifChoose("first_is_text", 2) == 1 {
+		first = byte(TextMessage)
+	}
+	fragmented := verifChoose("first_fragmented", 2) == 1
+	var stream []byte
+	if fragmented {
+		stream = append(stream, first, 1, 'a', 0x80, 1, 'b')
+	} else {
+		stream = append(stream, 0x80|first, 1, 'a')
+	}
+	err := ep.c.Parse(stream)
+	verifAssertD(!verifProtocolFailure(ep, err), "accepts-what-rfc-allows", "data-frame-mode/first-message")
+	n1 := len(frames)
+	switch verifChoose("then", 2) {
+	case 0: // a second message of the other type
+		second := byte(TextMessage)
+		if first == byte(TextMessage) {
+			second = byte(BinaryMessage)
+		}
+		err = ep.c.Parse([]byte{0x80 | second, 1, 'c'})
+		verifAssertD(!verifProtocolFailure(ep, err), "accepts-what-rfc-allows", "data-frame-mode/second-message")
+		verifAssertD(len(frames) == n1+1, "frame-delivered", "data-frame-mode")
+		if len(frames) == n1+1 {
+			verifAssertD(frames[n1].typ == MessageType(second), "same-type", "data-frame-mode/second-message")
+		}
+	case 1: // a continuation with nothing to continue
+		err = ep.c.Parse([]byte{0x80, 1, 'c'})
+		verifAssertD(verifProtocolFailure(ep, err), "rejects-what-rfc-forbids", "continuation-without-start/data-frame-mode")
+		verifAssertD(len(frames) == n1, "no-delivery-of-offending-frame", "data-frame-mode")
+	}
+	verifAssert(false, "witness")
+}
